@@ -91,6 +91,22 @@ def evaluate(case, ctx):
                 out += gtfcheck.check_wellformed("extended_annotation", ext, lens)
                 out += gtfcheck.check_reference_verbatim("extended_annotation", ext, sc)
                 out += gtfcheck.check_extended(models, ext, sc)
+        if sc.get("split_locus"):
+            # root cause of a known finding: the gene line is written with the first processing region that contains
+            # models of the gene; a novel model of a later region that reaches beyond it cannot widen it any more
+            import os
+            regions = parse.log_regions(os.path.join(res.out, "isoquant.log"))
+            spans = {g["id"]: (min(t["exons"][0][0] for t in g["transcripts"]),
+                               max(t["exons"][-1][1] for t in g["transcripts"])) for g in sc["genes"]}
+            out2 = []
+            for sig, det in out:
+                if sig == "C03:gene-does-not-contain-transcript" and det.get("file") == "transcript_models" and \
+                        det.get("gene") in spans and det.get("transcript") not in ref:
+                    a, b = spans[det["gene"]]
+                    if sum(1 for ra, rb in regions if ra <= b and rb >= a) >= 2:
+                        sig += ":novel-model-of-a-later-region"
+                out2.append((sig, det))
+            out = out2
         for sig, det in out:
             ctx.violation(sig, det, case)
         ctx.cls("annotated" if annotated else "annotation-free", "novel>0" if n_novel else "novel=0",
@@ -108,13 +124,15 @@ def split_scenarios(draw):
     supported by different reads on both sides; models of every region end up in the same output files."""
     rnd = draw(st.randoms(use_true_random=True))
     src = S.RndSrc(rnd)
-    sc = S.gen_long_gene_locus(src, with_annotation=True, straddle=draw(st.sampled_from([True, True, False])))
+    sc = S.gen_long_gene_locus(src, with_annotation=True, straddle=draw(st.sampled_from([True, True, False])),
+                               novel_tail=draw(st.booleans()))
     sc["opts"] = ["--data_type", draw(st.sampled_from(["nanopore", "pacbio_ccs"])), "--no_gzip", "--threads",
-                  str(draw(st.sampled_from([1, 2])))]
+                  str(draw(st.sampled_from([1, 2]))), "--debug"]
     if draw(st.booleans()):
         sc["opts"] += ["--high_memory"]
     if draw(st.booleans()):
         sc["opts"] += ["--polya_requirement", "never"]
+    sc["split_locus"] = True
     return sc
 
 
